@@ -644,11 +644,11 @@ PROPS = {
              "the requests it sent and the messages the core sent: registered nodes with latest capacity and drain state, accepted and not removed applications with their submission, allocations announced by the core or placed by the shim and not released, "
              "foreign allocations, outstanding asks, releases announced but not confirmed. A is stopped; the book is replayed on a FRESH ClusterContext B in one of four orders (k8shim: nodes, applications, allocations, foreign, asks; "
              "per application; random order respecting node/application before allocation; 6%: any order), in 40% of the histories half of the bound pods are first replayed as outstanding asks and reported as bound later in the replay "
-             "(the 'ask -> allocation' transition branch of UpdateAllocation), force-create on all applications or only on those with a bound allocation, nodes registered directly or draining and enabled afterwards, "
+             "(the 'ask -> allocation' transition branch of UpdateAllocation), 45% of these asks with ANOTHER size than the bind that follows (larger, smaller, other types: resource change of a pending ask and transition in one update), force-create on all applications or only on those with a bound allocation, nodes registered directly or draining and enabled afterwards, "
              "pods under deletion replayed or already gone, with B's configuration = A's (35%), tighter quotas on every queue plus a wildcard user limit, quota preemption enabled with a quota.preemption.delay on the first-level queues (inherited) or on the leaves and maxima of {1,1} "
              "(the first replayed allocation arms the timer inside the unchecked Queue.IncAllocatedResource) or {3..10} (a later allocation, an RM placement or a resize arms it), a queue subtree removed with and without queue creation by the rules, fair-sorted leaves. "
              "One line carries the dump of A, B's queue tree before the replay, every replayed item with B's answer and the application's placement, and the dump of B; 8..21 operations on B follow: scheduling cycles, new asks, "
-             "RM placement of outstanding asks (the shim reports the ask as bound on a node of its choice), in-place resizes up and down of bound allocations (and of asks), releases, node decommission, drain/undrain, confirmations. "
+             "RM placement of outstanding asks (the shim reports the ask as bound on a node of its choice, 40% with a size different from the ask the core holds), in-place resizes up and down of bound allocations (and of asks), releases, node decommission, drain/undrain, confirmations. "
              "The driver replays the items on the model and compares answers and all ledgers with B, evaluates acceptance, B's books, B's totals against the accepted items and A against B object by object, and after every following operation the capacity/quota/accounting clauses of the full-stack driver (C01 node ledger and bind guards, C02, C03 I1-I11 incl. every queue level, C05). "
              "non-trivial = a recovery line that replays at least one bound allocation; distinct = distinct protocol lines",
         trusted=["one partition, one goroutine; the harness calls the handler functions of ClusterContext directly; core A is stopped (ClusterContext.Stop) before core B is created in the same process (the user/group manager is a process-wide singleton and is cleared, as a restart does)",
@@ -661,7 +661,7 @@ PROPS = {
         level_text="Lean 4 proofs over the replay model (nodes, applications after placement, the 'new allocation already assigned' branch of UpdateAllocation, foreign allocations, asks — built from the CoreOps operations) for ALL queue trees, snapshots and replay orders: "
                    "the rebuilt state has balanced books (application = sum of its items, queue = sum of the applications at or below it, node ledger); every per-application and per-node total of the rebuilt state is the total recomputed from the accepted items and does not depend on the order; "
                    "a replay whose item list satisfies the order condition alone (every id / key used once, a node before the allocations and foreign pods on it, an application before its allocations and asks, positive resources, applications placed in a leaf, force-created or without task-group request) is accepted completely whatever the queue maxima, node capacities or user limits are (no such quantity occurs in the hypotheses); "
-                   "and therefore an old core with balanced books (C03) and the restarted core agree on every per-application, per-queue and (given the node view I7/I8 of C03) per-node allocated and pending total, up to placeholder replacements in flight, which are stated exactly (old pending + in flight = new pending; old node allocated = new + in flight). The transition branch (a key replayed as an ask, reported as bound later) keeps the books of every well-formed state. A force-created application with a new id whose queue exists as a leaf is accepted whatever its task-group request, the queue maxima and the sort policy are (full strength since fix 70f7a44; the former refutation witnesses are regression examples and corpus inputs). "
+                   "and therefore an old core with balanced books (C03) and the restarted core agree on every per-application, per-queue and (given the node view I7/I8 of C03) per-node allocated and pending total, up to placeholder replacements in flight, which are stated exactly (old pending + in flight = new pending; old node allocated = new + in flight). A key replayed as an ask and reported as bound later, also with another size (resource change of the pending ask: application and queue pending move by the delta, nothing on a node; then the transition with the new size), keeps the books of every well-formed state: the node books the new size once. A force-created application with a new id whose queue exists as a leaf is accepted whatever its task-group request, the queue maxima and the sort policy are (full strength since fix 70f7a44; the former refutation witnesses are regression examples and corpus inputs). "
                    "Tie: two-execution differential correspondence of the replay model against a real restarted ClusterContext plus the same clauses evaluated on the implementation's dumps.",
         level_note="trusted: Lean kernel; hand-written replay model tied by correspondence only; placement taken from the implementation; simulated shim; exact arithmetic; single partition, single goroutine; user trackers are checked by monitors (usage = sum of the user's applications), not stepped by the model",
         technique="Lean 4 invariant proof over a replay model (induction over the replayed items, order independence) + two-execution differential correspondence on real ClusterContexts",
